@@ -52,10 +52,15 @@ func ServeWorker(t *testing.T, plans []nrun.Plan) {
 			return res
 		}
 		// Parent of further jobs: report the most frequent schedule of up to
-		// five runs (stop as soon as one schedule was seen three times).
+		// five runs (eleven for the root), stopping early once one schedule
+		// clearly leads.
 		seen := []explore.Result{res}
 		votes := []int{1}
-		for n := 1; n < 5; n++ {
+		runs, enough := 5, 3
+		if job.Cost == 0 { // the root schedule is the prefix of every other job
+			runs, enough = 11, 5
+		}
+		for n := 1; n < runs; n++ {
 			r := run()
 			if len(r.Viol) > 0 || r.Crash != "" {
 				return r
@@ -68,7 +73,7 @@ func ServeWorker(t *testing.T, plans []nrun.Plan) {
 				if sameSchedule(seen[i], r) {
 					votes[i]++
 					found = true
-					if votes[i] >= 3 {
+					if votes[i] >= enough {
 						return seen[i]
 					}
 				}
